@@ -48,6 +48,8 @@ pub fn seed(name: &str) -> Vec<Ev> {
             Ev::MineP(MineSel::Mempool),
             Ev::Advance(97),
         ],
+        // dispute and penalty confirmed (by somebody else) before the tower holds any appointment
+        "S9" => vec![mine(vec![TxName::D(1)]), Ev::External(TxName::P(1)), Ev::MineP(MineSel::Mempool)],
         _ => panic!("unknown seed {name}"),
     }
 }
@@ -205,6 +207,7 @@ pub fn c07(tier: Tier) -> i32 {
                     alphabet: a,
                     props: vec!["C07"],
                     probe: true,
+                    forgery: None,
                 },
                 if sd == "S0" { depth } else { d4 },
             ));
@@ -255,6 +258,7 @@ pub fn c09(tier: Tier) -> i32 {
                 alphabet: a,
                 props: vec!["C09"],
                 probe: true,
+                forgery: None,
             },
             depth,
         ));
@@ -295,7 +299,7 @@ fn c01_alphabet(tier: Tier) -> Alphabet {
 
 fn c01_models(tier: Tier, props: Vec<&'static str>) -> Vec<(TowerModel, usize)> {
     let mut models = Vec::new();
-    let seeds: &[(&str, usize, usize)] = &[("S0", 5, 7), ("S1", 4, 6), ("S2", 4, 6), ("S3", 4, 5)];
+    let seeds: &[(&str, usize, usize)] = &[("S0", 5, 7), ("S1", 4, 6), ("S2", 4, 6), ("S3", 4, 5), ("S9", 4, 6)];
     for (sd, dq, dt) in seeds {
         for txindex in if tier == Tier::Quick { vec![false] } else { vec![false, true] } {
             models.push((
@@ -306,6 +310,7 @@ fn c01_models(tier: Tier, props: Vec<&'static str>) -> Vec<(TowerModel, usize)> 
                     alphabet: c01_alphabet(tier),
                     props: props.clone(),
                     probe: true,
+                    forgery: None,
                 },
                 if tier == Tier::Quick { *dq } else { *dt },
             ));
@@ -330,6 +335,7 @@ fn c01_models(tier: Tier, props: Vec<&'static str>) -> Vec<(TowerModel, usize)> 
                     alphabet: a,
                     props: props.clone(),
                     probe: true,
+                    forgery: None,
                 },
                 2,
             ));
@@ -358,6 +364,7 @@ pub fn c02(tier: Tier) -> i32 {
             alphabet: a,
             props: vec!["C02"],
             probe: true,
+            forgery: None,
         },
         if tier == Tier::Quick { 4 } else { 6 },
     ));
@@ -390,6 +397,7 @@ pub fn c08(tier: Tier) -> i32 {
                 alphabet: a,
                 props: vec!["C08"],
                 probe: true,
+                forgery: None,
             },
             if tier == Tier::Quick { dq } else { dt },
         ));
@@ -462,6 +470,7 @@ pub fn c04(tier: Tier) -> i32 {
                                 alphabet: a,
                                 props: vec!["C04"],
                                 probe: false,
+                                forgery: None,
                             },
                             0,
                         ));
@@ -499,10 +508,51 @@ pub fn c04(tier: Tier) -> i32 {
                 alphabet: a,
                 props: vec!["C04"],
                 probe: false,
+                forgery: None,
             },
             if tier == Tier::Quick { dq } else { dt },
         ));
     }
     run_models(&run, models, budget(tier, 45, 700));
+    run.finish()
+}
+
+pub fn c06(tier: Tier) -> i32 {
+    let run = Run::new("C06", "model_checking", tier);
+    let mut models = Vec::new();
+    // two users sharing D1, short subscriptions so that expired users occur, an unregistered key
+    for (label, c, sd, dq, dt) in [
+        ("long", cfg(3, 400, 6), "S0", 4usize, 5usize),
+        ("shared", cfg(3, 400, 6), "S2", 3, 4),
+        ("expiring", cfg(2, 2, 3), "S0", 4, 6),
+        ("responded", cfg(3, 400, 6), "S3", 3, 4),
+    ] {
+        let mut a = Alphabet::basic();
+        a.users = vec![1, 2];
+        a.disps = vec![1, 2];
+        a.blobs = vec![(Blob::Valid, false), (Blob::Alt, false)];
+        a.max_registers_per_user = if label == "expiring" { 2 } else { 1 };
+        a.max_adds = 3;
+        a.mine_empty = true;
+        a.mine_mempool = false;
+        a.mine_dispute = true;
+        a.restart = false;
+        a.max_deviations = 1;
+        models.push((
+            TowerModel {
+                label: format!("C06/{label}/{sd}"),
+                cfg: c,
+                seed: seed(sd),
+                alphabet: a,
+                props: vec!["C06"],
+                probe: true,
+                forgery: Some(tier == Tier::Thorough),
+            },
+            if tier == Tier::Quick { dq } else { dt },
+        ));
+    }
+    run_models(&run, models, budget(tier, 50, 700));
+    run.set("forged_requests", json!(crate::tmodel::FORGED_REQUESTS.load(std::sync::atomic::Ordering::Relaxed)));
+    run.assume("a mutated signature never recovers to a registered key by chance (probability ~2^-250)");
     run.finish()
 }
